@@ -22,7 +22,7 @@ TOL = 3e-4
 COLS = ('ra', 'dec', 'a', 'b', 'pa', 'err_ra', 'err_dec', 'err_a', 'err_b', 'err_pa', 'err_peak_flux', 'err_int_flux', 'local_rms')
 
 
-def mk(seed, mixed=False, small=False):
+def mk(seed, mixed=False, small=False, quantised=False):
     rnd = random.Random(seed)
     shape = (rnd.randint(90, 120), rnd.randint(90, 130)) if not small else (44, 70)
     h = fits.Header()
@@ -46,6 +46,9 @@ def mk(seed, mixed=False, small=False):
             img += fitting.elliptical_gaussian(R, C, amp * 0.7, r + 4.5, c + 3.0, 5 * K, 4 * K, 15.0)
         if mixed and k == 0:        # a companion of the opposite sign inside the same island
             img += fitting.elliptical_gaussian(R, C, -amp * 0.9, r + 4.0, c + 1.0, 5 * K, 4 * K, 15.0)
+    if quantised:
+        # integer multiples of the noise: pixels sit exactly on the clipping thresholds, in both polarities
+        img = np.round(img / noise) * noise
     return h, img.astype(np.float32), noise
 
 
@@ -74,8 +77,8 @@ def key(r):
     return (round(r.ra, 7), round(r.dec, 7))
 
 
-def mirror_failures(seed, mixed=False, withbkg=False):
-    h, img, noise = mk(seed, mixed, small=withbkg)     # small: a background that is not removed makes one image-sized island
+def mirror_failures(seed, mixed=False, withbkg=False, quantised=False):
+    h, img, noise = mk(seed, mixed, small=withbkg, quantised=quantised)     # small: a background that is not removed makes one image-sized island
     if withbkg:      # file-supplied background (positive everywhere), negated together with the image
         R, C = np.mgrid[0:img.shape[0], 0:img.shape[1]]
         bk = (0.5 + 0.002 * R + 0.001 * C).astype(np.float32)
@@ -170,6 +173,31 @@ def filter_failures(seed, mixed=False):
     return [o for o in out if o[0] != "harness"]
 
 
+def reuse_failures(seed):
+    """one SourceFinder object used for three calls with different polarity options: each call must obey its own options"""
+    h, img, noise = mk(seed)
+    tmp = tempfile.mkdtemp(prefix="c13_")
+    try:
+        path = os.path.join(tmp, "im.fits")
+        fits.PrimaryHDU(img, header=h).writeto(path)
+        sf = SourceFinder(log=log)
+        cats = []
+        for kw in (dict(nopositive=False, nonegative=False), dict(nopositive=False, nonegative=True), dict(nopositive=True, nonegative=False)):
+            sf.sources = []
+            rows = sf.find_sources_in_image(path, rms=noise, bkg=0.0, cores=1, **kw)
+            cats.append([r for r in rows if isinstance(r, ComponentSource)])
+    finally:
+        shutil.rmtree(tmp, ignore_errors=True)
+    both, pos, neg = cats
+    if any(r.peak_flux < 0 for r in pos):
+        return [("filter.positive_only_has_no_negative_peak", "a finder object first used for both polarities returns negative peaks when asked for positive only")]
+    if any(r.peak_flux > 0 for r in neg):
+        return [("filter.negative_only_has_no_positive_peak", "a re-used finder object returns positive peaks when asked for negative only")]
+    if len(pos) + len(neg) != len(both):
+        return [("filter.union_of_single_polarity_catalogues_is_the_both_catalogue", "re-used finder: %d + %d rows vs %d" % (len(pos), len(neg), len(both)))]
+    return []
+
+
 def crosscheck(p):
     thorough = p.get("tier") == "thorough"
     s0 = p.get("seed", 0) * 4001
@@ -207,6 +235,20 @@ def crosscheck(p):
         except Exception as e:
             fl = [("filter_run_completes", repr(e))]
         note(fl, {"filter_mixed_seed": s0 + i}, {"filter_mixed": [s0 + i]})
+    for i in range(4 if thorough else 1):
+        evals += 1
+        try:
+            fl = reuse_failures(s0 + i)
+        except Exception as e:
+            fl = [("filter_run_completes", repr(e))]
+        note(fl, {"reuse_seed": s0 + i}, {"reuse": [s0 + i]})
+    for i in range(8 if thorough else 3):
+        evals += 1
+        try:
+            fl = mirror_failures(s0 + i, quantised=True)
+        except Exception as e:
+            fl = [("mirror_run_completes", repr(e))]
+        note(fl, {"quantised_seed": s0 + i}, {"quantised": [s0 + i]})
     for i in range(6 if thorough else 2):
         evals += 1
         try:
@@ -223,7 +265,17 @@ def crosscheck(p):
 def replay_symmetry(p):
     bad = []
     ob = p.get("obligation", "")
-    explicit = any(k in p for k in ("mirror", "filter", "mixed", "withbkg", "filter_mixed"))
+    explicit = any(k in p for k in ("mirror", "filter", "mixed", "withbkg", "filter_mixed", "quantised", "reuse"))
+    for s in p.get("quantised") or ([] if explicit or 'find_islands' not in ob else range(3)):
+        fl = mirror_failures(s, quantised=True)
+        if fl:
+            bad.append({"quantised": s, "what": fl})
+            break
+    for s in p.get("reuse") or ([] if explicit or 'filter' not in ob else range(2)):
+        fl = reuse_failures(s)
+        if fl:
+            bad.append({"reuse": s, "what": fl})
+            break
     for s in p.get("withbkg") or ([] if explicit or 'background' not in ob else range(2)):
         fl = mirror_failures(s, withbkg=True)
         if fl:
@@ -253,4 +305,4 @@ def replay_symmetry(p):
             bad.append({"filter": s, "what": fl})
             break
     return {"fails": bool(bad), "observed": bad, "replay_func": "replay_symmetry",
-            "replay_payload": {k: [b[k] for b in bad if k in b] for k in ("mixed", "mirror", "filter", "withbkg", "filter_mixed")}}
+            "replay_payload": {k: [b[k] for b in bad if k in b] for k in ("mixed", "mirror", "filter", "withbkg", "filter_mixed", "quantised", "reuse")}}
